@@ -981,13 +981,16 @@ func (s *Sim) genEvmTx(deploy bool) *TxSpec {
 	if deploy {
 		// "empty-runtime": the constructor runs and returns no code (a deployment that succeeds and leaves
 		// an account without code); "raw-stop": the init code is a single STOP
-		progs := [][]byte{progStore(r), progForward(), progReverter(), progBalanceReader(), progSuicide(), progForwardAll(), progProbeRevert(), progCallIgnoring(), {}, nil, progBlockEnv()}
-		names := []string{"store", "forward", "reverter", "balance-reader", "suicide", "forward-all", "probe-revert", "call-ignoring", "empty-runtime", "raw-stop", "block-env"}
+		progs := [][]byte{progStore(r), progForward(), progReverter(), progBalanceReader(), progSuicide(), progForwardAll(), progProbeRevert(), progCallIgnoring(), {}, nil, progBlockEnv(), nil}
+		names := []string{"store", "forward", "reverter", "balance-reader", "suicide", "forward-all", "probe-revert", "call-ignoring", "empty-runtime", "raw-stop", "block-env", "raw-constructor-selfdestructs"}
 		i := r.Intn(len(progs))
 		t := s.baseTx(6, from, make([]byte, 20))
 		t.Data = deployer(progs[i])
 		if names[i] == "raw-stop" {
 			t.Data = []byte{0x00}
+		}
+		if names[i] == "raw-constructor-selfdestructs" { // CALLER SELFDESTRUCT as init code: the creation succeeds and leaves nothing
+			t.Data = []byte{0x33, 0xff}
 		}
 		t.Amount = fmt.Sprint(r.Intn(3) * 1000)
 		t.Gas = uint64(200000 + r.Intn(400000))
